@@ -300,6 +300,12 @@ def passthrough_str_ops(prog, chk):
             n += 1
             ent = PASSTHROUGH_STR_OK.get(k)
             ok = ent is not None and seen[k] <= ent[0]
+            from props import strops as _so
+
+            if not ok and k[1] not in _so.ALTERING_OPS:
+                # slicing / splitting: a rewrite that keeps every character does this as well - no verdict from the inventory
+                chk.undecided("A14.passthrough-str-ops", f"{k[0].replace('svgdx::', '')}:{k[1]}", b.where(bb, t.get("line")), f"{b.short} applies str::{k[1]}() (a slicing / splitting operation) at a place that is not in the reviewed list; whether characters are lost depends on what is done with the pieces")
+                continue
             chk.ob(ok, "A14.passthrough-str-ops", f"{k[0].replace('svgdx::', '')}:{k[1]}#{seen[k]}", b.where(bb, t.get("line")), f"reviewed: {ent[1] if ent else ''}", f"{b.short} applies str::{k[1]}() on the reader / element / writer path; not one of the reviewed places: attribute values, class lists or character data of a passed-through document can be altered", by="table")
     chk.floor("A14.passthrough-str-ops", n, 9, "character-altering string operation on the reader/writer path")
 
